@@ -441,7 +441,7 @@ def run_case(case):
                 # inside a draw); the generation breaks off mid-way, a retry must be unaffected and the object unchanged
                 from ..monitors.rng import FaultRNG
 
-                fr = FaultRNG(s + 5, rng.randint(1, 8))
+                fr = FaultRNG(s + 5, rng.randint(1, 8), count_choices=rng.random() < 0.5)
                 try:
                     with time_limit(15):
                         obj.generate(rng=fr)
